@@ -469,4 +469,64 @@ Proof.
   - exists m'; split; [exact E|]. eapply msp_ext; [exact Hm'|]. intros; bdestr.
 Qed.
 
+
+(* ---------- multiply: matrix * vector as row dot products ----------
+   [dot_raw] and [sum_n] are the same left fold from zero in index order, so the dot product IS the
+   textbook sum, definitionally: no ring law is needed (the statement also holds for floats). *)
+Fixpoint sum_acc (a : T) (n : nat) (g : nat -> T) : T :=
+  match n with 0 => a | S n' => add (sum_acc a n' g) (g n') end.
+
+Lemma sum_acc_zero n g : sum_acc zero n g = sum_n n g.
+Proof. induction n as [|n IH]; cbn; congruence. Qed.
+
+Lemma sum_acc_shift a n g : sum_acc a (S n) g = sum_acc (add a (g 0)) n (fun k => g (S k)).
+Proof.
+  induction n as [|n IH]; [reflexivity|].
+  change (sum_acc a (S (S n)) g) with (add (sum_acc a (S n) g) (g (S n))).
+  rewrite IH. reflexivity.
+Qed.
+
+Lemma dot_fold_sum (u w : list T) a : length u = length w ->
+  fold_left (fun acc p => add acc (mul (fst p) (snd p))) (combine u w) a =
+  sum_acc a (length u) (fun k => mul (nth k u zero) (nth k w zero)).
+Proof.
+  revert w a; induction u as [|x u IH]; intros [|y w] a H; cbn in H; try discriminate; [reflexivity|].
+  cbn [combine fold_left length fst snd]. rewrite sum_acc_shift. cbn [nth].
+  apply IH. lia.
+Qed.
+
+Lemma dot_raw_sum (u w : list T) : length u = length w ->
+  dot_raw u w = sum_n (length u) (fun k => mul (nth k u zero) (nth k w zero)).
+Proof. intros H. unfold dot_raw. rewrite dot_fold_sum by auto. apply sum_acc_zero. Qed.
+
+Lemma for_push n (g : nat -> T) body :
+  (forall k acc, k < n -> body k acc = Ok (acc ++ [g k])) ->
+  exists v, for_ 0 n body [] = Ok v /\ vsp n g v.
+Proof.
+  intros Hb.
+  destruct (for_inv (fun k acc => vsp k g acc) 0 n body []) as (v & E & Hv); [lia| | |].
+  - split; auto. intros; lia.
+  - intros k acc Hk (Hl & He). rewrite Hb by lia. eexists; split; [reflexivity|]. split.
+    + rewrite app_length; cbn; lia.
+    + intros i Hi. destruct (Nat.eq_dec i k) as [->|Hne].
+      * rewrite app_nth2 by lia. now rewrite Hl, Nat.sub_diag.
+      * rewrite app_nth1 by lia. apply He; lia.
+  - exists v; auto.
+Qed.
+
+Lemma multiply_msp r c f m v : msp r c f m -> length v = c ->
+  exists w, multiply m v = Ok w /\
+    vsp r (fun i => sum_n c (fun k => mul (f i k) (nth k v zero))) w.
+Proof.
+  intros Hm Hv. pose proof Hm as (Hw & Hr & Hc & He). unfold multiply.
+  rewrite Hc, Hr, Hv, Nat.eqb_refl. cbn [negb].
+  apply for_push. intros k acc Hk.
+  destruct (get_row_msp r c f m k Hm Hk) as (rv & E & Hl & Hrv). rewrite E. cbn [bind].
+  unfold dot. rewrite Hl, Hv, Nat.eqb_refl. cbn [bind]. do 2 f_equal. f_equal.
+  rewrite dot_raw_sum by lia. rewrite Hl. apply sum_n_ext. intros q Hq. now rewrite Hrv.
+Qed.
+
+Lemma multiply_guard (m : matrix) v : length v <> cols m -> multiply m v = Panic Guard.
+Proof. intros H; unfold multiply. now destruct (Nat.eqb_spec (length v) (cols m)). Qed.
+
 End MatProofs.
